@@ -28,7 +28,7 @@ type udpSink struct {
 }
 
 func newUDPSink() *udpSink {
-	c, err := net.ListenUDP("udp", &net.UDPAddr{IP: net.ParseIP("127.0.0.1")})
+	c, err := net.ListenUDP("udp", &net.UDPAddr{IP: net.ParseIP(myIP)})
 	if err != nil {
 		panic(err)
 	}
@@ -150,7 +150,7 @@ func runRoundScenario(seed uint64, size int, t *Trace) error {
 	for i := 0; i < nsrv; i++ {
 		f := fsrv{detKey(seed, 800+i), newScriptServer()}
 		fs = append(fs, f)
-		servers[f.key.Pub] = client.GCAServer{Banned: r.Chance(25), Location: "127.0.0.1", HttpPort: 1, TcpPort: f.ss.port(), UdpPort: sink.port()}
+		servers[f.key.Pub] = client.GCAServer{Banned: r.Chance(25), Location: myIP, HttpPort: 1, TcpPort: f.ss.port(), UdpPort: sink.port()}
 		defer f.ss.close()
 	}
 	if r.Chance(15) {
@@ -230,13 +230,13 @@ func runRoundScenario(seed uint64, size int, t *Trace) error {
 				for j := range fs {
 					if r.Chance(40) {
 						cs := st.Servers[fs[j].key.Pub]
-						as := server.AuthorizedServer{PublicKey: fs[j].key.Pub, Banned: r.Chance(50), Location: "127.0.0.1", HttpPort: uint16(2 + r.Intn(3)), TcpPort: cs.TcpPort, UdpPort: cs.UdpPort}
+						as := server.AuthorizedServer{PublicKey: fs[j].key.Pub, Banned: r.Chance(50), Location: myIP, HttpPort: uint16(2 + r.Intn(3)), TcpPort: cs.TcpPort, UdpPort: cs.UdpPort}
 						as.GCAAuthorization = glow.Sign(as.SigningBytes(), signer)
 						list = append(list, as)
 					}
 				}
 				if r.Chance(30) {
-					as := server.AuthorizedServer{PublicKey: detKey(seed, 900+r.Intn(3)).Pub, Banned: r.Chance(30), Location: "127.0.0.1", HttpPort: 9, TcpPort: closedPortOnce(), UdpPort: sink.port()}
+					as := server.AuthorizedServer{PublicKey: detKey(seed, 900+r.Intn(3)).Pub, Banned: r.Chance(30), Location: myIP, HttpPort: 9, TcpPort: closedPortOnce(), UdpPort: sink.port()}
 					as.GCAAuthorization = glow.Sign(as.SigningBytes(), signer)
 					list = append(list, as)
 				}
@@ -266,7 +266,7 @@ func runRoundScenario(seed uint64, size int, t *Trace) error {
 				for j := range fs {
 					if r.Chance(60) {
 						cs := st.Servers[fs[j].key.Pub]
-						as := server.AuthorizedServer{PublicKey: fs[j].key.Pub, Banned: r.Chance(20), Location: "127.0.0.1", HttpPort: 7, TcpPort: cs.TcpPort, UdpPort: cs.UdpPort}
+						as := server.AuthorizedServer{PublicKey: fs[j].key.Pub, Banned: r.Chance(20), Location: myIP, HttpPort: 7, TcpPort: cs.TcpPort, UdpPort: cs.UdpPort}
 						in := newGCA.Priv
 						if r.Chance(10) {
 							in = curGCA.Priv
@@ -287,7 +287,7 @@ func runRoundScenario(seed uint64, size int, t *Trace) error {
 				if r.Chance(60) {
 					j := r.Intn(len(fs))
 					cs := st.Servers[fs[j].key.Pub]
-					as = server.AuthorizedServer{PublicKey: fs[j].key.Pub, Banned: true, Location: "127.0.0.1", HttpPort: 4, TcpPort: cs.TcpPort, UdpPort: cs.UdpPort}
+					as = server.AuthorizedServer{PublicKey: fs[j].key.Pub, Banned: true, Location: myIP, HttpPort: 4, TcpPort: cs.TcpPort, UdpPort: cs.UdpPort}
 				} else if r.Chance(50) {
 					as.Banned = true
 				}
